@@ -10,6 +10,9 @@
 -/
 import MantraDex.Model.System
 import MantraDex.Proofs.NumLemmas
+import MantraDex.Proofs.ProvideLemmas
+import MantraDex.Proofs.HandlerLemmas
+import MantraDex.Properties.C04
 
 set_option linter.unusedSimpArgs false
 
@@ -22,14 +25,25 @@ theorem single_refused_on_empty_or_larger_pool {s : PmState} {env : PmEnv} {send
     {pool : PoolInfo} (hp : s.getPool pid = .ok pool)
     (hbad : pool.assets.any (·.amount == 0) = true ∨ pool.assets.length ≠ 2) :
     ∀ r, provideLiquidity s env sender [c] ls ss recv pid u l ≠ .ok r := by
-  sorry
+  intro r h
+  obtain ⟨s', r⟩ := r
+  obtain ⟨pool', ask, sim, hp', -, hz, hl, -⟩ := pl_single (agg_single c) h
+  rw [hp] at hp'
+  cases hp'
+  rcases hbad with hb | hb
+  · rw [hz] at hb; cases hb
+  · exact hb hl
 
 /-- a single-asset deposit can never lock LP for someone other than the sender -/
 theorem single_cannot_lock_for_other {s : PmState} {env : PmEnv} {sender other : Addr} {c : Coin}
     {ls ss : Option Nat} {pid : String} {d : Nat} {l : Option String}
     (hv : env.validAddr other = true) (hne : other ≠ sender) :
     ∀ r, provideLiquidity s env sender [c] ls ss (some other) pid (some d) l ≠ .ok r := by
-  sorry
+  intro r h
+  obtain ⟨s', r⟩ := r
+  obtain ⟨pool', ask, sim, -, hu, -⟩ := pl_single (agg_single c) h
+  simp only [addrOrDefault, hv, if_true, Option.isSome_some, Bool.true_and, bne_eq_false_iff_eq] at hu
+  exact hne hu
 
 /-- nor can a multi-asset deposit: with a lock the receiver must be the sender (the contract's own
     self-call, which carries the original sender as receiver, is the only exception) -/
@@ -38,7 +52,17 @@ theorem multi_cannot_lock_for_other {s : PmState} {env : PmEnv} {sender other : 
     (hmulti : 2 ≤ funds.length) (hfunds : (funds.map (·.denom)).Nodup)
     (hv : env.validAddr other = true) (hne : other ≠ sender) (hself : sender ≠ env.self) :
     ∀ r, provideLiquidity s env sender funds ls ss (some other) pid (some d) l ≠ .ok r := by
-  sorry
+  intro r h
+  obtain ⟨s', r⟩ := r
+  obtain ⟨deps, hagg, -⟩ := pl_agg h
+  have hlen : deps.length ≠ 1 := by rw [aggregateCoins_length hfunds hagg]; omega
+  obtain ⟨pool, sh, m0, -, -, ht⟩ := pl_multi hagg hlen h
+  obtain ⟨_, _, -, -, -, -, hauth, -⟩ := plTail_ok ht
+  have := hauth rfl
+  simp only [addrOrDefault, hv, if_true, Bool.or_eq_true, beq_iff_eq] at this
+  rcases this with h | h
+  · exact hne h
+  · exact hself h
 
 /-- an existing position can be expanded through a deposit only if it belongs to the receiver -/
 theorem lock_into_position_requires_ownership {s s' : PmState} {env : PmEnv} {sender : Addr}
@@ -48,7 +72,11 @@ theorem lock_into_position_requires_ownership {s s' : PmState} {env : PmEnv} {se
     (hpos : env.fmPosition lockId = some pos)
     (h : provideLiquidity s env sender funds ls ss recv pid (some d) (some lockId) = .ok (s', r)) :
     pos.1 = lockId ∧ pos.2 = addrOrDefault env recv sender := by
-  sorry
+  obtain ⟨deps, hagg, -⟩ := pl_agg h
+  have hlen : deps.length ≠ 1 := by rw [aggregateCoins_length hfunds hagg]; omega
+  obtain ⟨pool, sh, m0, -, -, ht⟩ := pl_multi hagg hlen h
+  obtain ⟨_, _, -, -, -, -, -, hown⟩ := plTail_ok ht
+  exact hown lockId pos rfl rfl hpos
 
 /-- first leg: exactly half is swapped, through a reply-on-success self-call; the buffer records
     the simulated proceeds and the balances expected after the swap -/
@@ -65,7 +93,10 @@ theorem first_leg_shape {s s' : PmState} {env : PmEnv} {sender : Addr} {c : Coin
       buf.lockId = l ∧ buf.liqSlip = ls ∧ buf.swapSlip = ss ∧
       r.msgs = [{ msg := .wasmExec env.self (.pm (.swap ask none ss none pid)) [buf.offerHalf],
                   replyOn := .success, id := C.SINGLE_SIDE_REPLY_ID }] := by
-  sorry
+  obtain ⟨pool', ask, sim, hp', -, -, -, hsim, hs, hr⟩ := pl_single (agg_single c) h
+  rw [hp] at hp'
+  cases hp'
+  exact ⟨_, sim, ask, hs, hsim, rfl, rfl, rfl, rfl, rfl, rfl, rfl, rfl, rfl, rfl, hr⟩
 
 /-- the self-call emitted by the reply: deposit the half and the proceeds with the recorded options -/
 def secondLegMsg (self : Addr) (buf : SingleSideBuffer) : Msg :=
@@ -81,7 +112,19 @@ theorem reply_shape {s s' : PmState} {env : PmEnv} {id : Nat} {r : Response} {bu
     env.bal env.self buf.expAsk.denom = buf.expAsk.amount ∧
     s' = { s with buffer := none } ∧
     r.msgs = [{ msg := secondLegMsg env.self buf }] := by
-  sorry
+  unfold pmReply at h
+  split at h
+  · rw [hb] at h
+    simp only [] at h
+    split at h
+    · cases h
+    · split at h
+      · cases h
+      · simp only [Except.ok.injEq, Prod.mk.injEq] at h
+        obtain ⟨rfl, rfl⟩ := h
+        rename_i h1 h2
+        exact ⟨by simpa using h1, by simpa using h2, rfl, rfl⟩
+  · cases h
 
 /-- no handler other than the first leg ever sets the buffer, and none reads it except the reply -/
 theorem buffer_only_set_by_first_leg {s s' : PmState} {env : PmEnv} {sender : Addr}
@@ -90,6 +133,46 @@ theorem buffer_only_set_by_first_leg {s s' : PmState} {env : PmEnv} {sender : Ad
     s'.buffer = s.buffer ∨
       (∃ ls ss rc pid u l c, m = .provideLiquidity ls ss rc pid u l ∧ funds.length ≥ 1 ∧
         s'.buffer.isSome ∧ (∃ sm, r.msgs = [sm] ∧ sm.replyOn = .success) ∧ c = funds.length) := by
-  sorry
+  cases m with
+  | createPool denoms decimals fees ptype id =>
+    left
+    obtain ⟨_, _, _, _, -, -, -, -, rfl, -⟩ := createPool_ok h
+    exact savePool_buffer _ _
+  | provideLiquidity ls ss rc pid u l =>
+    have h : provideLiquidity s env sender funds ls ss rc pid u l = .ok (s', r) := h
+    obtain ⟨deps, hagg, hne⟩ := pl_agg h
+    by_cases hlen : deps.length = 1
+    · right
+      obtain ⟨c, rfl⟩ : ∃ c, deps = [c] := by
+        match deps, hlen with
+        | [c], _ => exact ⟨c, rfl⟩
+      obtain ⟨pool', ask, sim, -, -, -, -, -, hs, hr⟩ := pl_single hagg h
+      refine ⟨ls, ss, rc, pid, u, l, funds.length, rfl, ?_, ?_, ⟨_, hr, rfl⟩, rfl⟩
+      · cases funds with
+        | nil => rw [aggregateCoins_nil] at hagg; cases hagg
+        | cons => simp
+      · rw [hs]; rfl
+    · left
+      obtain ⟨pool, sh, m0, -, -, ht⟩ := pl_multi hagg hlen h
+      obtain ⟨_, _, -, rfl, -⟩ := plTail_ok ht
+      exact savePool_buffer _ _
+  | swap ask b ms rc pid =>
+    left
+    obtain ⟨offer, r', -, hps, -⟩ := C04.swapHandler_messages h
+    exact performSwap_buffer hps
+  | withdrawLiquidity pid =>
+    left
+    obtain ⟨_, _, _, _, -, -, -, rfl, -⟩ := withdraw_ok h
+    exact savePool_buffer _ _
+  | execSwapOps ops mr rc ms =>
+    left
+    obtain ⟨_, _, _, _, _, -, -, -, hroute, -⟩ := execSwapOps_ok h
+    exact routeHops_buffer hroute
+  | updateConfig fc fm cf t =>
+    left
+    exact (pmExecute_config_ok (Or.inl ⟨fc, fm, cf, t, rfl⟩) h).2.2.1
+  | updateOwnership a =>
+    left
+    exact (pmExecute_config_ok (Or.inr ⟨a, rfl⟩) h).2.2.1
 
 end MantraDex.C14
